@@ -525,6 +525,42 @@ def uq_facts(repo, sk, facts, notes):
     facts['uq_next_load_after_empty'] = order_in(pr_, r'IF read_result\.read_pos != nullptr$', r'DECL Node\* const next_node = _consumer->next\.load')
 # ===== C02 block end =====
 
+# ===== C08 block begin (failure-counter protocol of ThreadContext; add-only, owned by props/c08.py) =====
+def failc_facts(repo, sk, facts, notes):
+    """what increment_failure_counter / get_and_reset_failure_counter look like: the flags of the micro-step
+    model Backend/FailCounter.v. Memory orders are not part of the facts: an atomic read-modify-write is
+    atomic for every order and the count clause of C08 needs nothing else."""
+    global MACRO_ARGS
+    p = os.path.join(repo, 'include', 'quill', 'core', 'ThreadContextManager.h')
+    MO_ARG = r'(?:\s*,\s*(?:std::)?memory_order(?:_|::)\w+)?'
+    MO_ONLY = r'(?:\s*(?:std::)?memory_order(?:_|::)\w+\s*)?'
+    MACRO_ARGS = True
+    try:
+        for m in ('increment_failure_counter', 'get_and_reset_failure_counter'):
+            docs = run_clang('#include "quill/core/ThreadContextManager.h"\n', 'ThreadContext::' + m, repo)
+            sk['tc_' + m] = method_skeleton(docs, p, m) or []
+    finally:
+        MACRO_ARGS = False
+    docs = run_clang('#include "quill/core/ThreadContextManager.h"\n', 'ThreadContext::_failure_counter', repo)
+    is_atomic = re.search(r'\batomic\s*<', field_type(docs, '_failure_counter')) is not None
+    def atom(l, op):
+        m = re.match(r'\s*ATOMIC (.*) (\S+) \[(.*)\]$', l)
+        return bool(m and m.group(2) == op)
+    inc = sk['tc_increment_failure_counter']
+    rmw_call = (len(inc) == 2 and re.match(r'EXPR _failure_counter\.fetch_add\(\s*1\s*' + MO_ARG + r'\s*\)$', inc[0]) is not None
+                and atom(inc[1], 'fetch_add') and ' _failure_counter ' in inc[1])
+    rmw_oper = len(inc) == 1 and re.match(r'EXPR (?:\+\+\s*_failure_counter|_failure_counter\s*\+\+|_failure_counter\s*\+=\s*1)$', inc[0]) is not None
+    facts['tcm_failc_inc_atomic'] = bool(is_atomic and (rmw_call or rmw_oper))
+    gr = sk['tc_get_and_reset_failure_counter']
+    rx_xchg = r'RET return _failure_counter\.exchange\(\s*0\s*' + MO_ARG + r'\s*\)$'
+    rx_guard = r'IF (?:QUILL_(?:UN)?LIKELY\s*\(\s*)?_failure_counter\.load\(' + MO_ONLY + r'\)\s*==\s*0\s*\)?$'
+    plain = (len(gr) == 2 and re.match(rx_xchg, gr[0]) is not None and atom(gr[1], 'exchange') and ' _failure_counter ' in gr[1])
+    guarded = (len(gr) == 5 and re.match(rx_guard, gr[0]) is not None and atom(gr[1], 'load') and gr[2] == '  RET return 0'
+               and re.match(rx_xchg, gr[3]) is not None and atom(gr[4], 'exchange') and ' _failure_counter ' in gr[4])
+    facts['tcm_failc_reset_atomic'] = bool(is_atomic and (plain or guarded))
+    facts['tcm_failc_reset_guarded'] = bool(guarded)
+# ===== C08 block end =====
+
 
 def main():
     repo = REPO; out = os.path.join(os.path.dirname(os.path.abspath(__file__)), '..', 'coq', 'gen', 'SrcFacts.v')
@@ -537,6 +573,7 @@ def main():
         elif x == '--dump': dump = True
     sk, facts, notes = generate(repo)
     uq_facts(repo, sk, facts, notes)   # C02 block
+    failc_facts(repo, sk, facts, notes)   # C08 block
     txt = emit(sk, facts, notes, os.path.normpath(out))
     if dump:
         for k in sorted(sk):
